@@ -56,6 +56,7 @@ def apply_actions(
         )
 
     accumulative_changed_state = current_state.copy()
+    accumulative_changed_state.is_init = False
     for action_call in joint_action:
         if action_call.name == NOP_ACTION:
             continue
